@@ -29,7 +29,27 @@ var jsonKeys = []string{"a", "b", "c", "id", "name", "zz", "A", "", "a.b", "0", 
 
 var jsonStrings = []string{"", "a", "hello world", "é", "日本語", "\U0001F600", "q\"uote", "back\\slash", "sl/ash", "<b>&amp;</b>", "line\nbreak", "tab\there", "\u0001", " ", "---", "[TestA - 1]", "null", "1", "a long long long long long long string value here", " "}
 
-var jsonNums = []string{"0", "-0", "1", "-1", "10", "1.5", "1.50", "-2.25", "1e3", "1E+2", "1e-7", "0.0", "123456789012345678901234567890", "1.7976931348623157e308", "5e-324", "0.1", "100", "3.14159"}
+var jsonNums = []string{"0", "-0", "1", "-1", "10", "1.5", "1.50", "-2.25", "1e3", "1E+2", "1e-7", "0.0", "123456789012345678901234567890", "1.7976931348623157e308", "5e-324", "0.1", "100", "3.14159", "9007199254740993", "1085941723411234817", "-9223372036854775808"}
+
+// numNeighbour: the integer literal next to an integer literal (last digit changed, same length): the smallest numeric
+// change there is. For 64-bit ids and nanosecond time stamps the neighbour is the same float64. ok=false for non-integers.
+func numNeighbour(lit string) (string, bool) {
+	digits := strings.TrimPrefix(lit, "-")
+	if digits == "" || strings.Trim(digits, "0123456789") != "" || (len(digits) > 1 && digits[0] == '0') {
+		return "", false
+	}
+	b := []byte(lit)
+	last := len(b) - 1
+	switch {
+	case b[last] == '9':
+		b[last] = '8'
+	case b[last] == '0' && len(digits) == 1:
+		return "1", true
+	default:
+		b[last]++
+	}
+	return string(b), true
+}
 
 func genJNode(t *rapid.T, depth int) JNode {
 	k := rapid.IntRange(0, 9).Draw(t, "jk")
